@@ -2,6 +2,7 @@ package checks
 
 import (
 	"fmt"
+	"sort"
 
 	"verif/internal/fw"
 	"verif/internal/h"
@@ -238,6 +239,74 @@ func C14(c *fw.Ctx) {
 			}
 			for name, st := range progs {
 				judgeAllSchedules(c, append(c14Prelude(), st...), "stmt|"+name)
+			}
+		}
+	}
+	// leaf forms: every context with its holes filled by every combination of
+	// {bare variable read, literal, assignment to that variable, call that mutates it}
+	leafForms := []struct {
+		name string
+		mk   func() *model.N
+	}{
+		{"var", func() *model.N { return model.Id("w") }},
+		{"lit", func() *model.N { return model.Num(7) }},
+		{"asg", func() *model.N { return model.Grp(model.Asg("w", model.Bin("+", model.Bin("*", model.Id("w"), model.Num(2)), model.Num(1)))) }},
+		{"call", func() *model.N { return model.CallN("bump") }},
+		{"elem", func() *model.N { return model.Idx(model.Id("wa"), model.Num(0)) }},
+		{"elem-store", func() *model.N { return model.Grp(model.IAsg(model.Id("wa"), model.Num(0), model.Bin("+", model.Idx(model.Id("wa"), model.Num(0)), model.Num(10)))) }},
+	}
+	bumpPre := func() []*model.N {
+		return append(c14Prelude(), model.Var("wa", model.Arr(model.Num(1))),
+			model.Fun("bump", nil, model.ExprS(model.Asg("w", model.Bin("+", model.Id("w"), model.Num(100)))), model.ExprS(model.IAsg(model.Id("wa"), model.Num(0), model.Bin("+", model.Idx(model.Id("wa"), model.Num(0)), model.Num(1000)))), model.Return(model.Id("w"))),
+			model.ExprS(model.Asg("w", model.Num(1))))
+	}
+	twoHole := map[string]func(a, b *model.N) *model.N{
+		"call-user":    func(a, b *model.N) *model.N { return model.CallN("g2", a, b) },
+		"array":        func(a, b *model.N) *model.N { return model.Arr(a, b) },
+		"object":       func(a, b *model.N) *model.N { return model.Obj([]string{"z", "y"}, []*model.N{a, b}) },
+		"index":        func(a, b *model.N) *model.N { return model.Idx(model.Arr(model.Num(5), model.Num(6), a), model.Bin("%", b, model.Num(3))) },
+		"index-store":  func(a, b *model.N) *model.N { return model.IAsg(model.Id("arr"), model.Bin("%", a, model.Num(3)), b) },
+		"prop-store":   func(a, b *model.N) *model.N { return model.PAsg(model.Idx(model.Arr(model.Id("ob"), a), model.Num(0)), "k", b) },
+		"builtin-call": func(a, b *model.N) *model.N { return model.CallN(model.BiMax, a, b) },
+		"append":       func(a, b *model.N) *model.N { return model.CallN(model.BiAppend, model.Arr(a), b) },
+	}
+	for _, op := range append(allOps, logOps...) {
+		op := op
+		twoHole["bin"+op] = func(a, b *model.N) *model.N {
+			if model.BinLevel[op] == 0 {
+				return model.Log(op, a, b)
+			}
+			return model.Bin(op, a, b)
+		}
+	}
+	var thNames []string
+	for k := range twoHole {
+		thNames = append(thNames, k)
+	}
+	sort.Strings(thNames)
+	for _, cn := range thNames {
+		for _, la := range leafForms {
+			for _, lb := range leafForms {
+				if !c.Mine() {
+					continue
+				}
+				prog := append(bumpPre(), model.Print(twoHole[cn](la.mk(), lb.mk())), model.Print(model.Id("w")), model.Print(model.Id("wa")), model.Print(model.Id("arr")))
+				judgeAllSchedules(c, prog, "leaf-forms|"+cn)
+			}
+		}
+	}
+	// three holes: a op b op c with every leaf form (left-to-right across a chain)
+	for _, op := range []string{"+", "*", "-", "==", model.KwOr, model.KwAnd} {
+		for _, la := range leafForms {
+			for _, lb := range leafForms {
+				for _, lc := range leafForms {
+					if !c.Mine() {
+						continue
+					}
+					mk := twoHole["bin"+op]
+					prog := append(bumpPre(), model.Print(mk(mk(la.mk(), lb.mk()), lc.mk())), model.Print(mk(la.mk(), model.Grp(mk(lb.mk(), lc.mk())))), model.Print(model.Id("w")))
+					judgeAllSchedules(c, prog, "leaf-forms3|"+op)
+				}
 			}
 		}
 	}
